@@ -37,6 +37,29 @@ class Stop(Exception):
         self.cls = cls
 
 
+class StopRenderX(Exception):
+    """what `extends` raises after the base template was rendered: the rest of the current template is skipped"""
+
+
+class Drop:
+    def __str__(self):
+        return "BlockDrop"
+
+
+KIDS = {"capture": [2], "if": [2, 3], "for": [4, 5], "with": [2], "macro": [3], "block": [2], "tablerow": [3]}
+
+
+def find_nodes(nodes, kind):
+    """the `extends` / `block` tags of a template, outer before inner, in source order (partials are not entered)"""
+    out = []
+    for n in nodes:
+        if n[0] == kind:
+            out.append(n)
+        for sub in KIDS.get(n[0], []):
+            out += find_nodes(n[sub], kind)
+    return out
+
+
 def stem(name):
     return name.split(".")[0]
 
@@ -117,6 +140,14 @@ class Ctx:
         self.loops = []
         self.depth = depth
         self.no_include = no_include
+        self.iso = layers  # what an isolated copy (render, call) starts from
+        self.tnodes = []  # the nodes of the template this context belongs to
+        self.stacks = {}  # block name -> definitions, most derived first
+
+    def scope_layers(self):
+        """this context's whole scope, innermost first, as an overriding block sees it behind its own names"""
+        return list(reversed(self.blocks)) + [self.locals] + list(self.layers) + [
+            {"now": Clock("2001-02-03 04:05:06.000007"), "today": Clock("2001-02-03")}, self.counters]
 
     def size(self):
         return 4 + len(self.blocks)
@@ -192,8 +223,22 @@ class Ref:
         self.push(c, {"partial": True})
         try:
             self.block(c, body, out)
+        except StopRenderX:
+            pass
         finally:
             c.blocks.pop()
+
+    def stack_blocks(self, c, nodes):
+        ext = find_nodes(nodes, "extends")
+        blocks = find_nodes(nodes, "block")
+        if len(ext) > 1:
+            raise Stop("TemplateInheritanceError")
+        names = [b[1] for b in blocks]
+        if len(set(names)) != len(names):
+            raise Stop("TemplateInheritanceError")
+        for b in blocks:
+            c.stacks.setdefault(b[1], []).append(b[2])
+        return ext[0][1] if ext else None
 
     def items_of(self, v):
         if isinstance(v, dict):
@@ -277,6 +322,8 @@ class Ref:
             for k, e in n[3]:
                 ns[k] = self.ev(c, e)
             self.push(c, ns)
+            saved = c.tnodes
+            c.tnodes = body
             try:
                 if n[2] is None:
                     self.partial(c, body, out)
@@ -294,6 +341,7 @@ class Ref:
                         ns[key] = v
                         self.partial(c, body, out)
             finally:
+                c.tnodes = saved
                 c.blocks.pop()
         elif t == "render":
             if n[1] not in self.partials:
@@ -305,7 +353,8 @@ class Ref:
             if c.depth > self.limit:
                 raise Stop("ContextDepthError")
             # isolated: nothing of the caller but its global data
-            c2 = Ctx([ns] + c.layers, c.depth + 1, True)
+            c2 = Ctx([ns] + c.iso, c.depth + 1, True)
+            c2.tnodes = body
             if n[2] is None:
                 self.partial(c2, body, out)
             else:
@@ -353,8 +402,71 @@ class Ref:
                 ns[k] = UNDEF if e is None else self.ev(c, e)
             if c.depth > self.limit:
                 raise Stop("ContextDepthError")
-            c2 = Ctx([ns] + c.layers, c.depth + 1, True)
+            c2 = Ctx([ns] + c.iso, c.depth + 1, True)
+            c2.tnodes = c.tnodes
             self.block(c2, body, out)
+        elif t == "tablerow":
+            v = self.ev(c, n[2])
+            if v is UNDEF and self.strict:
+                raise Stop("UndefinedError")
+            items = self.items_of(v)
+            ns = {}
+            self.push(c, ns)
+            out.append('<tr class="row1">\n')
+            try:
+                for i, it in enumerate(items):
+                    k = len(items)
+                    ns.clear()
+                    ns["tablerowloop"] = {"length": k, "index": i + 1, "index0": i, "rindex": k - i, "rindex0": k - i - 1,
+                                          "first": i == 0, "last": i == k - 1, "col": i + 1, "col0": i,
+                                          "col_first": i == 0, "col_last": i + 1 == k, "row": 1}
+                    ns[n[1]] = it
+                    out.append(f'<td class="col{i + 1}">')
+                    self.block(c, n[3], out)
+                    out.append("</td>")
+            finally:
+                c.blocks.pop()
+            out.append("</tr>\n")
+        elif t == "block":
+            stack = c.stacks.get(n[1])
+            if stack:
+                # the most derived definition, in a scope of its own that can read everything the base template can
+                if c.depth > self.limit:
+                    raise Stop("ContextDepthError")
+                c2 = Ctx([{"block": Drop()}] + c.scope_layers(), c.depth + 1, c.no_include)
+                c2.iso = c.iso
+                c2.tnodes = c.tnodes
+                c2.stacks = c.stacks
+                self.block(c2, stack[0], out)
+            else:
+                self.push(c, {"block": Drop()})
+                try:
+                    self.block(c, n[2], out)
+                finally:
+                    c.blocks.pop()
+        elif t == "extends":
+            parent = self.stack_blocks(c, c.tnodes)
+            if parent is None:
+                raise Stop("AssertionError")
+            seen = set()
+            base = None
+            while parent is not None:
+                if parent in seen:
+                    raise Stop("TemplateInheritanceError")
+                seen.add(parent)
+                if parent not in self.partials:
+                    raise Stop("TemplateNotFoundError")
+                base = self.partials[parent]
+                parent = self.stack_blocks(c, base)
+            self.push(c, {"partial": False})
+            try:
+                self.block(c, base, out)
+            except StopRenderX:
+                pass
+            finally:
+                c.blocks.pop()
+            c.stacks.clear()
+            raise StopRenderX()
         else:
             raise ValueError(n)
 
@@ -362,9 +474,13 @@ class Ref:
         p = self.prog
         c = Ctx([dict(p.get("args") or {}), dict(p.get("matter") or {}), dict(p.get("tglobals") or {}), dict(p.get("eglobals") or {})])
         out = []
+        c.tnodes = p["main"] if main is None else main
         try:
             self.push(c, {"partial": False})
-            self.block(c, p["main"] if main is None else main, out)
+            try:
+                self.block(c, c.tnodes, out)
+            except StopRenderX:
+                pass
             return {"ok": "".join(out)}
         except Stop as s:
             return {"err": s.cls}
